@@ -14,9 +14,11 @@ package neutrino
 // node is idle) up to a deviation bound.
 
 import (
+	"bytes"
 	"context"
 	"errors"
 	"fmt"
+	"io"
 	"net"
 	"os"
 	"reflect"
@@ -26,14 +28,14 @@ import (
 	"testing"
 	"time"
 
-	"github.com/btcsuite/btcd/chaincfg/v2"
-	"github.com/btcsuite/btcd/chainhash/v2"
-	"github.com/btcsuite/btcd/wire/v2"
 	"github.com/btcsuite/btcd/btcutil/v2"
 	"github.com/btcsuite/btcd/btcutil/v2/gcs"
 	"github.com/btcsuite/btcd/btcutil/v2/gcs/builder"
-	"github.com/btcsuite/btclog"
+	"github.com/btcsuite/btcd/chaincfg/v2"
+	"github.com/btcsuite/btcd/chainhash/v2"
 	"github.com/btcsuite/btcd/rpcclient"
+	"github.com/btcsuite/btcd/wire/v2"
+	"github.com/btcsuite/btclog"
 	"github.com/lightninglabs/neutrino/banman"
 	"github.com/lightninglabs/neutrino/blockntfns"
 	"github.com/lightninglabs/neutrino/headerfs"
@@ -64,6 +66,88 @@ func cfMutexVisible() bool {
 	return t.Type == reflect.TypeOf(vfxChanMutex{})
 }
 
+// bufStream is one direction of a buffered in-memory connection: unlike
+// net.Pipe, a Write returns at once and a Read takes what is there without the
+// writer's goroutine having to run (as with a socket buffer). Used for remotes
+// whose point is what the client does with several messages that are already
+// there.
+type bufStream struct {
+	mu     sync.Mutex
+	buf    []byte
+	closed bool
+	notify chan struct{}
+}
+
+func newBufStream() *bufStream { return &bufStream{notify: make(chan struct{}, 1)} }
+
+func (b *bufStream) write(p []byte) (int, error) {
+	b.mu.Lock()
+	if b.closed {
+		b.mu.Unlock()
+		return 0, io.ErrClosedPipe
+	}
+	b.buf = append(b.buf, p...)
+	b.mu.Unlock()
+	select {
+	case b.notify <- struct{}{}:
+	default:
+	}
+	return len(p), nil
+}
+
+func (b *bufStream) read(p []byte) (int, error) {
+	for {
+		b.mu.Lock()
+		if len(b.buf) > 0 {
+			n := copy(p, b.buf)
+			b.buf = b.buf[n:]
+			b.mu.Unlock()
+			return n, nil
+		}
+		closed := b.closed
+		b.mu.Unlock()
+		if closed {
+			return 0, io.EOF
+		}
+		<-b.notify
+	}
+}
+
+func (b *bufStream) close() {
+	b.mu.Lock()
+	b.closed = true
+	b.mu.Unlock()
+	select {
+	case b.notify <- struct{}{}:
+	default:
+	}
+}
+
+type bufConn struct {
+	rd, wr *bufStream
+	addr   net.Addr
+}
+
+func newBufConnPair() (*bufConn, *bufConn) {
+	a, b := newBufStream(), newBufStream()
+	ad := &net.TCPAddr{IP: net.ParseIP("10.9.9.9"), Port: 1}
+	return &bufConn{rd: a, wr: b, addr: ad}, &bufConn{rd: b, wr: a, addr: ad}
+}
+
+func (c *bufConn) Read(p []byte) (int, error)  { return c.rd.read(p) }
+func (c *bufConn) Write(p []byte) (int, error) { return c.wr.write(p) }
+func (c *bufConn) Close() error {
+	// what was written before the close is still delivered
+	c.wr.close()
+	c.rd.close()
+	return nil
+}
+func (c *bufConn) LocalAddr() net.Addr              { return c.addr }
+func (c *bufConn) RemoteAddr() net.Addr             { return c.addr }
+func (c *bufConn) SetDeadline(time.Time) error      { return nil }
+func (c *bufConn) SetReadDeadline(time.Time) error  { return nil }
+func (c *bufConn) SetWriteDeadline(time.Time) error { return nil }
+
 // ---- fixture
 
 type nodeFix struct {
@@ -73,7 +157,7 @@ type nodeFix struct {
 	// fork[i] has height forkFrom+1+i; the parent of fork[0] is trunk[forkFrom]
 	fork     []*verifchain.Node
 	forkFrom int32
-	start    int32                    // the honest chain at the start: trunk[0..start]
+	start    int32                               // the honest chain at the start: trunk[0..start]
 	bad      map[chainhash.Hash]*verifchain.Node // an invalid child for trunk nodes from start on
 	data     map[chainhash.Hash]*verifchain.BlockData
 	byHash   map[chainhash.Hash]*verifchain.Node
@@ -107,7 +191,13 @@ func getNodeFixture(long bool) *nodeFix {
 	f.trunk = []*verifchain.Node{g}
 	cur := g
 	for i := int32(1); i <= trunkLen; i++ {
-		n, d := verifchain.MineBlock(p, cur, 10*time.Minute, 1, fmt.Sprintf("T%d", i))
+		// the first block comes two days after genesis: a client that
+		// only has the genesis block is not current (24-hour rule)
+		spacing := 10 * time.Minute
+		if i == 1 {
+			spacing = 48 * time.Hour
+		}
+		n, d := verifchain.MineBlock(p, cur, spacing, 1, fmt.Sprintf("T%d", i))
 		f.trunk = append(f.trunk, n)
 		f.data[n.Hash], f.byHash[n.Hash] = d, n
 		cur = n
@@ -149,33 +239,38 @@ func (f *nodeFix) label(h chainhash.Hash) string {
 // ---- simulated remotes
 
 var nodeBehaviours = []string{
-	"honest",            // a second honest node
-	"silent",            // completes the handshake, then never answers
-	"invalid-header",    // serves the honest chain followed by a header without proof of work
-	"lighter-fork",      // serves only a shorter fork
-	"false-cfheaders",   // lies about one filter header, serves the matching false filter
-	"false-prev-header", // lies about the previous filter header in cfheaders
-	"garbage",           // answers every request with an unrelated message
-	"drops-on-cf",       // closes the connection when asked for filter headers
-	"bad-block",         // serves blocks whose transactions do not match the header
-	"no-cf-service",     // does not advertise compact filters
-	"no-witness",        // does not advertise witness support
+	"honest",                // a second honest node
+	"silent",                // completes the handshake, then never answers
+	"invalid-header",        // serves the honest chain followed by a header without proof of work
+	"lighter-fork",          // serves only a shorter fork
+	"false-cfheaders",       // lies about one filter header, serves the matching false filter
+	"false-prev-header",     // lies about the previous filter header in cfheaders
+	"garbage",               // answers every request with an unrelated message
+	"drops-on-cf",           // closes the connection when asked for filter headers
+	"bad-block",             // serves blocks whose transactions do not match the header
+	"drops-after-handshake", // closes the connection right after its verack
+	"garbage-after-verack",  // verack and a protocol violation in one write
+	"no-cf-service",         // does not advertise compact filters
+	"no-witness",            // does not advertise witness support
 }
 
 type nodeItem struct {
 	req      wire.Message    // a request of the client awaiting this remote's answer
 	announce *chainhash.Hash // or: a block announcement this remote wants to make
-	at       time.Time       // (virtual) arrival time
+	// or: the remote is ready to send its verack (slow-handshake)
+	handshake bool
+	at        time.Time // (virtual) arrival time
 }
 
 type nodeConn struct {
-	p      *nodePeer
-	c      net.Conn
-	mu     sync.Mutex
-	queue  []nodeItem
-	closed bool
-	ready  bool
-	seq    int
+	hsRelease chan struct{} // slow-handshake: closed when the verack may go out
+	p         *nodePeer
+	c         net.Conn
+	mu        sync.Mutex
+	queue     []nodeItem
+	closed    bool
+	ready     bool
+	seq       int
 }
 
 type nodePeer struct {
@@ -191,6 +286,8 @@ type nodePeer struct {
 	versionSent bool
 	// it answered a getdata of the client, in turn, with a corrupted block
 	servedBadBlock bool
+	// the user has banned its address (C13)
+	userBanned bool
 	// C15: how it reacts to a transaction announcement before / after the
 	// first block event, and the announcements it has received
 	fh       map[chainhash.Hash]chainhash.Hash // a liar's own filter header chain
@@ -228,22 +325,25 @@ type nodeH struct {
 	poisoned      string
 	poisonedNote  string
 	poisonChecked uint32
-	lastTip     *verifchain.Node // C02: the stored tip at the previous quiescent point
-	subscribers []*nodeSub
+	noWait        bool // C17: the next remote write is not followed by a Wait
+	stopTask      *verifbubble.Task
+	lastTip       *verifchain.Node // C02: the stored tip at the previous quiescent point
+	subscribers   []*nodeSub
 	// request -> remotes that answered it in turn (name, and name:lied
 	// when the answer contained the liar's false value)
 	answered map[string]map[string]bool
-	calls        []*nodeCall
+	calls    []*nodeCall
 	// announcements of the current honest tip that the honest remote
 	// delivered while the client believed its headers were current
 	announcedWhileCurrent int
-	tx           *wire.MsgTx // C15: the transaction being broadcast
-	txPhase      int         // 0 until the first block event after the broadcast, then 1
-	txErr        error
-	txReturned   bool
-	invsAtReturn map[string]int
-	rescanQuit   chan struct{}
-	stalledSub   *blockntfns.Subscription
+	tx                    *wire.MsgTx // C15: the transaction being broadcast
+	txPhase               int         // 0 until the first block event after the broadcast, then 1
+	txErr                 error
+	txReturned            bool
+	invsAtReturn          map[string]int
+	rescanQuit            chan struct{}
+	rescanQ2              chan struct{}
+	stalledSub            *blockntfns.Subscription
 }
 
 // chainFH computes the filter header of n along its own branch, taking the
@@ -382,7 +482,30 @@ func (cn *nodeConn) run(h *nodeH) {
 			break
 		}
 	}
+	if cn.p.behaviour == "slow-handshake" {
+		cn.mu.Lock()
+		cn.hsRelease = make(chan struct{})
+		cn.queue = append(cn.queue, nodeItem{handshake: true, at: time.Now()})
+		cn.mu.Unlock()
+		<-cn.hsRelease
+	}
+	if cn.p.behaviour == "garbage-after-verack" {
+		// the verack and a message of another network in one write: the
+		// client finishes the handshake and hits the protocol violation
+		// in the same breath, before anything else has run
+		var buf bytes.Buffer
+		_ = wire.WriteMessage(&buf, wire.NewMsgVerAck(), pver, params.Net)
+		_ = wire.WriteMessage(&buf, wire.NewMsgPing(7), pver, wire.MainNet)
+		cn.c.Write(buf.Bytes())
+		fail()
+		return
+	}
 	if err := write(wire.NewMsgVerAck()); err != nil {
+		fail()
+		return
+	}
+	if cn.p.behaviour == "drops-after-handshake" {
+		// gone before the client has registered the new peer
 		fail()
 		return
 	}
@@ -583,6 +706,19 @@ func (h *nodeH) replies(p *nodePeer, q wire.Message) (out []wire.Message, drop b
 				continue
 			}
 			blk := d.Block
+			if p.behaviour == "bad-witness" {
+				// witness data on the coinbase input without any
+				// witness commitment: same txids, same merkle root
+				cp := *blk
+				cp.Transactions = append([]*wire.MsgTx{}, blk.Transactions...)
+				cb := *cp.Transactions[0]
+				cb.TxIn = append([]*wire.TxIn{}, cb.TxIn...)
+				in := *cb.TxIn[0]
+				in.Witness = wire.TxWitness{make([]byte, 32)}
+				cb.TxIn[0] = &in
+				cp.Transactions[0] = &cb
+				blk = &cp
+			}
 			if p.behaviour == "bad-block" {
 				cp := *blk
 				cp.Transactions = append([]*wire.MsgTx{}, blk.Transactions...)
@@ -638,12 +774,18 @@ func (h *nodeH) send(cn *nodeConn, msgs []wire.Message) {
 	}
 	tk := verifbubble.Go("remote-write", func() (any, error) {
 		for _, m := range msgs {
-			if err := wire.WriteMessage(cn.c, m, uint32(wire.AddrV2Version), h.f.params.Net); err != nil {
+			// blocks and transactions go out with their witness data
+			_, err := wire.WriteMessageWithEncodingN(cn.c, m, uint32(wire.AddrV2Version), h.f.params.Net, wire.WitnessEncoding)
+			if err != nil {
 				return nil, err
 			}
 		}
 		return nil, nil
 	})
+	if h.noWait {
+		// the next stimulus (Stop) is launched into the same interval
+		return
+	}
 	verifbubble.Wait()
 	if !tk.Done() {
 		// the client does not read from this connection; closing it
@@ -688,6 +830,11 @@ func (h *nodeH) handle(cn *nodeConn) {
 	it := cn.queue[0]
 	cn.queue = cn.queue[1:]
 	cn.mu.Unlock()
+	if it.handshake {
+		close(cn.hsRelease)
+		verifbubble.Wait()
+		return
+	}
 	if it.announce != nil {
 		// An announcement that reaches a client which believes its headers
 		// are current must make it fetch the announced chain; one that
@@ -734,7 +881,7 @@ func (h *nodeH) handle(cn *nodeConn) {
 		verifbubble.Wait()
 		return
 	}
-	if _, ok := it.req.(*wire.MsgGetData); ok && cn.p.behaviour == "bad-block" && len(msgs) > 0 && time.Now().Equal(it.at) {
+	if _, ok := it.req.(*wire.MsgGetData); ok && (cn.p.behaviour == "bad-block" || cn.p.behaviour == "bad-witness") && len(msgs) > 0 && time.Now().Equal(it.at) {
 		cn.p.servedBadBlock = true
 	}
 	h.send(cn, msgs)
@@ -938,7 +1085,12 @@ func (h *nodeH) pending() []nodeAct {
 				}
 			}
 			h.mu.Unlock()
-			c1, c2 := net.Pipe()
+			var c1, c2 net.Conn
+			if d.p.behaviour == "garbage-after-verack" || d.p.behaviour == "drops-after-handshake" {
+				c1, c2 = newBufConnPair()
+			} else {
+				c1, c2 = net.Pipe()
+			}
 			cn := &nodeConn{p: d.p, c: c2}
 			d.p.conn = cn
 			d.p.conns++
@@ -964,6 +1116,9 @@ func (h *nodeH) pending() []nodeAct {
 		what := "announces its tip"
 		if first.req != nil {
 			what = "answers " + describe(h.f, first.req)
+		}
+		if first.handshake {
+			what = "completes the handshake"
 		}
 		acts = append(acts, nodeAct{name: fmt.Sprintf("%s %s", p.name, what), run: func() { h.handle(cn) }})
 	}
@@ -992,8 +1147,8 @@ type nodeMode struct {
 
 var nodeModes = map[string]nodeMode{
 	"C04": {name: "C04", behaviours: []string{"honest", "silent", "invalid-header", "lighter-fork", "false-cfheaders",
-		"false-prev-header", "garbage", "drops-on-cf", "bad-block"}, converge: true},
-	"C13": {name: "C13", behaviours: []string{"no-cf-service", "no-witness", "bad-block", "false-cfheaders", "false-prev-header"}, calls: true},
+		"false-prev-header", "garbage", "drops-on-cf", "bad-block", "drops-after-handshake", "garbage-after-verack"}, converge: true},
+	"C13": {name: "C13", behaviours: []string{"no-cf-service", "no-witness", "bad-block", "bad-witness", "slow-handshake", "false-cfheaders", "false-prev-header"}, calls: true},
 	"C17": {name: "C17", behaviours: []string{"honest", "silent", "false-cfheaders", "drops-on-cf"}, stops: true, calls: true},
 	"C15": {name: "C15", behaviours: []string{"honest"}, noEarly: true},
 	// C03 on a chain long enough for filter checkpoints: the liar's false
@@ -1097,6 +1252,9 @@ func nodeRun(c *verifeng.Chooser, f *nodeFix, env *verifhfs.Env, mode nodeMode, 
 	}()
 	if mode.subs {
 		h.subscribe("S0", 0)
+	}
+	if mode.name == "C17" {
+		h.startRescan()
 	}
 
 	// the default script of environment events, taken one at a time each
@@ -1273,6 +1431,24 @@ func nodeRun(c *verifeng.Chooser, f *nodeFix, env *verifhfs.Env, mode nodeMode, 
 		}
 		if mode.stops {
 			menu = append(menu, nodeAct{name: "Stop", cost: 1, run: func() { stopNow = true }})
+			if len(acts) > 0 && acts[0].run != nil && !strings.Contains(acts[0].name, "accepts the connection") {
+				// Stop and the next answer of a remote in the same
+				// interval, in both launch orders: what happens in
+				// between is the scheduler's, but it is not the
+				// sequential order of the plain Stop above
+				first := acts[0]
+				menu = append(menu, nodeAct{name: "Stop is called and, before anything else happens, " + first.name, cost: 1, run: func() {
+					h.stopTask = verifbubble.Go("Stop", func() (any, error) { return nil, h.cs.Stop() })
+					first.run()
+					stopNow = true
+				}})
+				menu = append(menu, nodeAct{name: first.name + " and, before the client has reacted, Stop is called", cost: 1, run: func() {
+					h.noWait = true
+					first.run()
+					h.noWait = false
+					stopNow = true
+				}})
+			}
 		}
 		costs := make([]int, len(menu))
 		for i, a := range menu {
@@ -1435,6 +1611,36 @@ func (h *nodeH) checkCalls(afterStop bool) bool {
 	return false
 }
 
+// rescanQuit2 is the (never closed before the checks) quit channel of the
+// second rescan.
+func (h *nodeH) rescanQuit2() chan struct{} {
+	if h.rescanQ2 == nil {
+		h.rescanQ2 = make(chan struct{})
+	}
+	return h.rescanQ2
+}
+
+// startRescan starts a rescan from genesis. In C17's runs this happens before
+// any peer is connected, so that the rescan goes through every phase (waiting
+// for the header chain to be current, catching up, following the tip) while
+// Stop is offered at each quiescent point.
+func (h *nodeH) startRescan() {
+	f := h.f
+	t2 := f.trunk[2]
+
+	quit := make(chan struct{})
+	h.rescanQuit = quit
+	r := NewRescan(&RescanChainSource{ChainService: h.cs},
+		StartBlock(&headerfs.BlockStamp{Height: 0, Hash: *f.params.GenesisHash}),
+		WatchInputs(InputWithScript{OutPoint: wire.OutPoint{Index: 7}, PkScript: f.data[t2.Hash].Block.Transactions[1].TxOut[1].PkScript}),
+		NotificationHandlers(rpcclient.NotificationHandlers{
+			OnFilteredBlockConnected: func(int32, *wire.BlockHeader, []*btcutil.Tx) {},
+		}),
+		QuitChan(quit))
+	errc := r.Start()
+	h.launch("Rescan", func() (any, error) { return nil, <-errc }, nil)
+}
+
 func (h *nodeH) launch(name string, f func() (any, error), check func(val any, err error) string) {
 	h.calls = append(h.calls, &nodeCall{name: name, task: verifbubble.Go(name, f), check: check})
 }
@@ -1442,7 +1648,29 @@ func (h *nodeH) launch(name string, f func() (any, error), check func(val any, e
 func (h *nodeH) callEvents(mode nodeMode) []nodeEv {
 	f := h.f
 	t2 := f.trunk[2]
-	evs := []nodeEv{
+	var evs []nodeEv
+	slow := false
+	for _, p := range h.peers {
+		slow = slow || p.behaviour == "slow-handshake"
+	}
+	if mode.name == "C13" && slow {
+		// the user bans the adversary's address: by default once the node
+		// is idle, as a deviation at any earlier point - also in the
+		// middle of that peer's handshake
+		evs = append(evs, nodeEv{"the user bans the adversary's address", func() {
+			for _, p := range h.peers {
+				if p.name != "H" {
+					if err := h.cs.BanPeer(p.addr, banman.ExceededBanThreshold); err != nil {
+						h.c.Note("BanPeer: %v", err)
+					}
+					p.userBanned = true
+					verifbubble.Wait()
+					break
+				}
+			}
+		}})
+	}
+	evs = append(evs, []nodeEv{
 		{"GetBlock(T2) is called", func() {
 			h.launch("GetBlock(T2)", func() (any, error) { return h.cs.GetBlock(t2.Hash) }, func(val any, err error) string {
 				if err != nil {
@@ -1455,7 +1683,7 @@ func (h *nodeH) callEvents(mode nodeMode) []nodeEv {
 				return ""
 			})
 		}},
-	}
+	}...)
 	if mode.name == "C05" {
 		evs = append(evs, nodeEv{"GetCFilter(T2) is called", func() {
 			h.launch("GetCFilter(T2)", func() (any, error) { return h.cs.GetCFilter(t2.Hash, wire.GCSFilterRegular) }, func(val any, err error) string {
@@ -1513,19 +1741,6 @@ func (h *nodeH) callEvents(mode nodeMode) []nodeEv {
 					StartBlock(&headerfs.BlockStamp{Height: 1, Hash: f.trunk[1].Hash}),
 				)
 			}, nil)
-		}},
-		nodeEv{"a rescan from genesis is started", func() {
-			quit := make(chan struct{})
-			h.rescanQuit = quit
-			r := NewRescan(&RescanChainSource{ChainService: h.cs},
-				StartBlock(&headerfs.BlockStamp{Height: 0, Hash: *f.params.GenesisHash}),
-				WatchInputs(InputWithScript{OutPoint: wire.OutPoint{Index: 7}, PkScript: f.data[t2.Hash].Block.Transactions[1].TxOut[1].PkScript}),
-				NotificationHandlers(rpcclient.NotificationHandlers{
-					OnFilteredBlockConnected: func(int32, *wire.BlockHeader, []*btcutil.Tx) {},
-				}),
-				QuitChan(quit))
-			errc := r.Start()
-			h.launch("Rescan", func() (any, error) { return nil, <-errc }, nil)
 		}},
 		nodeEv{"SendTransaction is called", func() {
 			tx := wire.NewMsgTx(2)
@@ -1743,7 +1958,7 @@ func (h *nodeH) finalChecks() bool {
 			if h.oracle == "C03" && h.poisoned == "" && h.cs.IsBanned(p.addr) {
 				return c.Fail("C03", "C03:honest-peer-banned", "the honest remote %s (%s) is banned", p.name, p.addr)
 			}
-		case "bad-block":
+		case "bad-block", "bad-witness":
 			if p.servedBadBlock && !h.cs.IsBanned(p.addr) {
 				return c.Fail("C13", "C13:invalid-block-not-banned", "%s (%s) answered the client's getdata with a block whose transactions do not match its header, in turn, and is not banned", p.name, p.addr)
 			}
@@ -1755,7 +1970,10 @@ func (h *nodeH) finalChecks() bool {
 // stop stops the node; with check it applies the shutdown clauses.
 func (h *nodeH) stop(check bool) {
 	c := h.c
-	tk := verifbubble.Go("Stop", func() (any, error) { return nil, h.cs.Stop() })
+	tk := h.stopTask
+	if tk == nil {
+		tk = verifbubble.Go("Stop", func() (any, error) { return nil, h.cs.Stop() })
+	}
 	releaseDials := func() {
 		h.mu.Lock()
 		ds := h.dials
@@ -1793,11 +2011,17 @@ func (h *nodeH) stop(check bool) {
 			if h.rescanQuit != nil {
 				close(h.rescanQuit)
 			}
+			if h.rescanQ2 != nil {
+				close(h.rescanQ2)
+			}
 			return
 		}
 	}
 	if h.rescanQuit != nil {
 		close(h.rescanQuit)
+	}
+	if h.rescanQ2 != nil {
+		close(h.rescanQ2)
 	}
 	if h.stalledSub != nil {
 		h.stalledSub.Cancel()
